@@ -13,7 +13,7 @@ import HC.Props.C02
   header bits whose *current bit* equals the bit the surviving entries carry.
 
 * **`torn_atomic`** (the property itself, on the model of the crate, for a writer): after any history of
-  calls and reopen steps, take any further call (append_batch, clear or a read), any storage operation `k`
+  calls and reopen steps, take any further call (append_batch, clear, make_read_only or a read), any storage operation `k`
   of it and any number `t` of bytes — the stores as they are when the process dies during operation `k`
   and, if it is a write, only its first `t` bytes arrive (`LogSpec.tornDisk`).  `Hypercore::new` on these
   stores succeeds and the recovered core represents the log before the call or the log after it, for torn
